@@ -6,10 +6,11 @@ SPEC = {
 }
 META = {
     "text": "Lean theorems over every buffer, every finite sequence of the reader operations and every Int length "
-            "(run_accounting, read_spec, uint_spec, fail_unchanged, peek_*); the model is tied to reader/reader.go by "
+            "(run_accounting, read_spec, uint_spec, fail_unchanged, peek_*); the model is tied to reader/reader.go by a "
+            "translation of every method regenerated on every run (gen_reader_*: translated method = model step for every state and argument), by "
             "running both on the same random operation sequences and by an independent slice-arithmetic oracle.",
     "ref": "DESIGN.md §6 C19",
-    "note": "Trusted: Lean kernel; hand-written model Vflow.Model.Reader (Go slice semantics transcribed); the "
+    "note": "Trusted: Lean kernel; the translator factgen/reader_ir.go and the Go slice semantics written in Vflow.Model.ReaderIR; the "
             "correspondence harness and its generator bound what the tie sees.",
     "technique": "Lean 4 proof by induction over operation sequences + differential correspondence with reader.Reader",
 }
